@@ -300,7 +300,13 @@ def clientConnectUnary (cfg : CCfg) (statusText : Bytes) (r : Resp) : ClientObs 
   let (header, trailer) := splitTrailerPrefixed r.header
   let encName := r.header.get Gen.hdrConnectUnaryEncoding
   if !encodingKnown cfg encName then
-    { msgs := [], result := some (localErr codeInternal), header := header, trailer := trailer }
+    -- an encoding this client cannot read: on a 200 that is a protocol error; on any other status
+    -- the HTTP status is all there is to go by (fix F30)
+    if r.status ≠ 200 then
+      { msgs := [], result := some { code := connectHTTPToCode r.status, msg := statusText, details := [], md := [] },
+        header := header, trailer := trailer }
+    else
+      { msgs := [], result := some (localErr codeInternal), header := header, trailer := trailer }
   else if r.status ≠ 200 then
     match r.body with
     | [.errorJSON w] =>
